@@ -205,12 +205,15 @@ def get_bs_cached(n, degree=0, reg_type='diff', strength=0,
         # try to load
         if basis_dir == '':
             basis_dir = abel.transform.get_basis_dir(make=True)
-        _bs = _load_bs(basis_dir, n, degree, verbose)
-        if _bs is None:
+        bs = _load_bs(basis_dir, n, degree, verbose)
+        if bs is None:
             # generate and cache
-            _bs = _bs_daun(n, degree, verbose)
-            _save_bs(basis_dir, n, degree, _bs, verbose)
+            bs = _bs_daun(n, degree, verbose)
+            _save_bs(basis_dir, n, degree, bs, verbose)
             # (does nothing for basis_dir == None)
+        # (cached only now, together with its parameters: a failed save must
+        # not leave the new basis set under the old parameters)
+        _bs = bs
         _bs_prm = [n, degree]
         # reset cached inverse-transform matrix
         _tr = None
